@@ -73,6 +73,33 @@ theorem escape_eq_nil {t : Bytes} : escape t = [] ↔ t = [] := by
       all_goals simp at this
   · intro h; subst h; rfl
 
+theorem escapeByte_no (c : UInt8) : ∀ x ∈ escapeByte c, x ≠ cLt ∧ x ≠ cQuot := by
+  intro x hx
+  unfold escapeByte at hx
+  split at hx
+  · revert x; decide
+  split at hx
+  · revert x; decide
+  split at hx
+  · revert x; decide
+  split at hx
+  · revert x; decide
+  split at hx
+  · revert x; decide
+  · rename_i h1 _ _ _ h5
+    simp only [List.mem_singleton] at hx
+    subst hx
+    exact ⟨h1, h5⟩
+
+/-- escaped text contains neither `<` nor `"` -/
+theorem escape_no : ∀ (t : Bytes), ∀ x ∈ escape t, x ≠ cLt ∧ x ≠ cQuot
+  | [], x, hx => by simp [escape] at hx
+  | c :: cs, x, hx => by
+    simp only [escape, List.mem_append] at hx
+    rcases hx with hx | hx
+    · exact escapeByte_no c x hx
+    · exact escape_no cs x hx
+
 /-! ### `xml/ser.rs::text`: `escape`, then CR as `&#13;` -/
 
 theorem replaceCr_append : ∀ (a b : Bytes), replaceCr (a ++ b) = replaceCr a ++ replaceCr b
@@ -197,6 +224,114 @@ theorem escapeText_noCr : ∀ (t : Bytes), ∀ x ∈ escapeText t, x ≠ 13
     rcases hx with hx | hx
     · exact escapeTextByte_noCr c x hx
     · exact escapeText_noCr cs x hx
+
+/-! ### `xml/ser.rs::attr_value`: `escape`, then tab, LF and CR as character references (since 1dc4ea8) -/
+
+theorem replaceRef_append (c : UInt8) (ref : Bytes) : ∀ (a b : Bytes),
+    replaceRef c ref (a ++ b) = replaceRef c ref a ++ replaceRef c ref b
+  | [], _ => rfl
+  | x :: xs, b => by simp [replaceRef, replaceRef_append c ref xs b]
+
+/-- what one byte becomes in an attribute value -/
+def escapeAttrByte (c : UInt8) : Bytes := replaceCr (replaceRef 10 lfRef (replaceRef 9 tabRef (escapeByte c)))
+
+theorem escapeAttr_nil : escapeAttr [] = [] := rfl
+
+theorem escapeAttr_cons (c : UInt8) (cs : Bytes) : escapeAttr (c :: cs) = escapeAttrByte c ++ escapeAttr cs := by
+  simp [escapeAttr, escape, replaceCr_append, replaceRef_append, escapeAttrByte]
+
+theorem escapeAttrByte_special {c : UInt8} (h : isSpecial c = true) : escapeAttrByte c = escapeByte c := by
+  simp only [isSpecial, Bool.or_eq_true, decide_eq_true_eq] at h
+  rcases h with (((h | h) | h) | h) | h <;> subst h <;> decide
+
+theorem escapeAttrByte_tab : escapeAttrByte 9 = [38, 35, 57, 59] := by decide
+theorem escapeAttrByte_lf : escapeAttrByte 10 = [38, 35, 49, 48, 59] := by decide
+theorem escapeAttrByte_cr : escapeAttrByte 13 = [38, 35, 49, 51, 59] := by decide
+
+theorem escapeAttrByte_plain {c : UInt8} (h : isSpecial c = false) (h9 : c ≠ 9) (h10 : c ≠ 10) (h13 : c ≠ 13) :
+    escapeAttrByte c = [c] := by
+  simp [escapeAttrByte, escapeByte_of_not_special h, replaceRef, replaceCr, h9, h10, h13]
+
+theorem unescape_tab (r : Bytes) : unescape ([38, 35, 57, 59] ++ r) = (unescape r).map (9 :: ·) := by
+  have h9 : charRef [57] = some [9] := by decide
+  simp [unescape, unescapeEnt, resolveEntity, cAmp, cSemi, h9]
+
+theorem unescape_lf (r : Bytes) : unescape ([38, 35, 49, 48, 59] ++ r) = (unescape r).map (10 :: ·) := by
+  have h10 : charRef [49, 48] = some [10] := by decide
+  simp [unescape, unescapeEnt, resolveEntity, cAmp, cSemi, h10]
+
+/-- `unescape (escapeAttr t) = t`: what the serialiser writes as an attribute value is read back unchanged -/
+theorem unescape_escapeAttr (t : Bytes) : unescape (escapeAttr t) = some t := by
+  induction t with
+  | nil => simp [escapeAttr_nil, unescape]
+  | cons c cs ih =>
+    rw [escapeAttr_cons]
+    by_cases h9 : c = 9
+    · subst h9; rw [escapeAttrByte_tab, unescape_tab, ih]; rfl
+    by_cases h10 : c = 10
+    · subst h10; rw [escapeAttrByte_lf, unescape_lf, ih]; rfl
+    by_cases h13 : c = 13
+    · subst h13; rw [escapeAttrByte_cr, unescape_cr, ih]; rfl
+    cases hs : isSpecial c with
+    | false =>
+      rw [escapeAttrByte_plain hs h9 h10 h13]
+      have hamp : c ≠ cAmp := by
+        intro h; subst h; simp [isSpecial] at hs
+      rw [List.singleton_append, unescape_cons_of_ne_amp hamp, ih]; rfl
+    | true =>
+      rw [escapeAttrByte_special hs]
+      simp only [isSpecial, Bool.or_eq_true, decide_eq_true_eq] at hs
+      rcases hs with (((h | h) | h) | h) | h <;> subst h
+      · simp only [escapeByte, if_true]; rw [unescape_lt, ih]; rfl
+      · rw [show escapeByte cGt = [38, 103, 116, 59] by decide, unescape_gt, ih]; rfl
+      · rw [show escapeByte cAmp = [38, 97, 109, 112, 59] by decide, unescape_amp, ih]; rfl
+      · rw [show escapeByte cApos = [38, 97, 112, 111, 115, 59] by decide, unescape_apos, ih]; rfl
+      · rw [show escapeByte cQuot = [38, 113, 117, 111, 116, 59] by decide, unescape_quot, ih]; rfl
+
+theorem escapeAttrByte_clean (c : UInt8) :
+    ∀ x ∈ escapeAttrByte c, x ≠ 9 ∧ x ≠ 10 ∧ x ≠ 13 ∧ x ≠ cQuot ∧ x ≠ cLt := by
+  by_cases h9 : c = 9
+  · subst h9; decide
+  by_cases h10 : c = 10
+  · subst h10; decide
+  by_cases h13 : c = 13
+  · subst h13; decide
+  cases hs : isSpecial c with
+  | false =>
+    rw [escapeAttrByte_plain hs h9 h10 h13]
+    intro x hx
+    simp only [List.mem_singleton] at hx
+    subst hx
+    refine ⟨h9, h10, h13, ?_, ?_⟩ <;> (intro h; subst h; simp [isSpecial] at hs)
+  | true =>
+    rw [escapeAttrByte_special hs]
+    simp only [isSpecial, Bool.or_eq_true, decide_eq_true_eq] at hs
+    rcases hs with (((h | h) | h) | h) | h <;> subst h <;> decide
+
+/-- `attr_value` writes no literal tab, LF, CR, `"` or `<` -/
+theorem escapeAttr_clean : ∀ (t : Bytes), ∀ x ∈ escapeAttr t, x ≠ 9 ∧ x ≠ 10 ∧ x ≠ 13 ∧ x ≠ cQuot ∧ x ≠ cLt
+  | [], x, hx => by simp [escapeAttr_nil] at hx
+  | c :: cs, x, hx => by
+    rw [escapeAttr_cons, List.mem_append] at hx
+    rcases hx with hx | hx
+    · exact escapeAttrByte_clean c x hx
+    · exact escapeAttr_clean cs x hx
+
+/-- attribute-value normalisation leaves what `attr_value` wrote as it is -/
+theorem attrNormalize_escapeAttr (t : Bytes) : attrNormalize (escapeAttr t) = escapeAttr t := by
+  have hcr : ∀ c ∈ escapeAttr t, c ≠ 13 := fun c hc => (escapeAttr_clean t c hc).2.2.1
+  unfold attrNormalize
+  rw [normLineEnds_of_noCr hcr]
+  have : ∀ (l : Bytes), (∀ c ∈ l, c ≠ 9 ∧ c ≠ 10) → l.map (fun c => if c = 9 || c = 10 then 32 else c) = l := by
+    intro l
+    induction l with
+    | nil => intro _; rfl
+    | cons c cs ih =>
+      intro h
+      have hc := h c (by simp)
+      simp only [List.map_cons, hc.1, hc.2, decide_false, Bool.or_self, Bool.false_eq_true, if_false]
+      rw [ih (fun x hx => h x (by simp [hx]))]
+  exact this _ (fun c hc => ⟨(escapeAttr_clean t c hc).1, (escapeAttr_clean t c hc).2.1⟩)
 
 /-! ### integers -/
 
